@@ -65,10 +65,17 @@ type c20Cfg struct {
 	// Corrupt selects the byte-enumeration refusal families run in this
 	// configuration: "" none, "meta", "data", "meta+data"
 	Corrupt string `json:"corrupt,omitempty"`
+	// WAL: the NodeHosts keep their log store's write-ahead log in a separate
+	// directory (NodeHostConfig.WALDir != NodeHostDir)
+	WAL bool `json:"wal,omitempty"`
 }
 
 func (c c20Cfg) id() string {
-	return fmt.Sprintf("%s/%s/n%d/%s/%s", c.SM, c.DB, c.N0, c.Hist, c.List)
+	s := fmt.Sprintf("%s/%s/n%d/%s/%s", c.SM, c.DB, c.N0, c.Hist, c.List)
+	if c.WAL {
+		s += "/waldir"
+	}
+	return s
 }
 
 // c20Job is what a child process executes.
@@ -622,12 +629,16 @@ func (w *c20World) nhConfig(h int, fs vfs.IFS) config.NodeHostConfig {
 	if w.cfg.DB == "tan" {
 		ec.LogDBFactory = tan.Factory
 	}
-	return config.NodeHostConfig{
+	c := config.NodeHostConfig{
 		NodeHostDir:    fmt.Sprintf("data/nh%d", h),
 		RTTMillisecond: w.rtt,
 		RaftAddress:    w.addr(h),
 		Expert:         ec,
 	}
+	if w.cfg.WAL {
+		c.WALDir = fmt.Sprintf("wal/nh%d", h)
+	}
+	return c
 }
 
 func (w *c20World) rcfg(rid uint64) config.Config {
@@ -1441,6 +1452,12 @@ func c20Enumerate(thorough bool) []c20Cfg {
 				}
 			}
 		}
+		// Q5: dedicated WAL directory
+		for i, l := range []string{"same", "subset", "allnew"} {
+			for j, d := range c20DBs {
+				add(c20Cfg{SM: c20SMs[(i+j)%3], DB: d, N0: 3, Hist: "PPEPS", List: l, WAL: true})
+			}
+		}
 		// Q4: byte enumerations
 		for i, s := range c20SMs {
 			add(c20Cfg{SM: s, DB: c20DBs[i%2], N0: 3, Hist: "PPEPS", List: "same", Corrupt: "meta"})
@@ -1455,6 +1472,16 @@ func c20Enumerate(thorough bool) []c20Cfg {
 	for _, h := range c20Histories(3, 3, "ADNW", false) {
 		for _, l := range c20Lists {
 			full(3, h, l)
+		}
+	}
+	// T1b: dedicated WAL directory
+	for _, h := range []string{"PPEPS", "PDEP", "E"} {
+		for _, l := range c20Lists {
+			for _, sm := range c20SMs {
+				for _, d := range c20DBs {
+					add(c20Cfg{SM: sm, DB: d, N0: 3, Hist: h, List: l, WAL: true})
+				}
+			}
 		}
 	}
 	// T2: initial shards of 1 and 2 replicas: every history with <=2 proposals x
